@@ -66,7 +66,13 @@ pub fn scenarios(tier: &str) -> Vec<Scenario> {
     v.push(Scenario::new("trees_depth2_nodes3_output_and_ids_varied", &must, || {
         run(&Opts { max_depth: 2, max_nodes: 3, max_children: 2, vary_output: true, vary_ids: true, reply_subs: false, inst_leaves: false })
     }));
+    v.push(Scenario::new("trees_nodes3_replies_emitting_submessages_instantiate_leaves", &must, || {
+        run(&Opts { max_depth: 1, max_nodes: 3, max_children: 2, vary_output: true, vary_ids: true, reply_subs: true, inst_leaves: true })
+    }));
     if tier == "thorough" {
+        v.push(Scenario::new("trees_depth2_nodes4_chain_replies_emitting_submessages_instantiate_leaves", &must, || {
+            run(&Opts { max_depth: 2, max_nodes: 4, max_children: 1, vary_output: false, vary_ids: true, reply_subs: true, inst_leaves: true })
+        }));
         v.push(Scenario::new("trees_depth2_nodes4_chain_output_varied", &must, || {
             run(&Opts { max_depth: 2, max_nodes: 4, max_children: 1, vary_output: true, vary_ids: true, reply_subs: false, inst_leaves: false })
         }));
